@@ -1,4 +1,5 @@
 """Checks that run monitors of the hand-written `fixed` crate (universe of types): C05 C06 C08 C17."""
+import json
 import os
 import posixpath
 import shutil
@@ -173,7 +174,8 @@ def c05(pid, tier, seed):
                 "of the types sharing a file in the fixed universe + seeded synthetic texts: doc blocks, multi-line bodies, prefix names, "
                 "overlapping imports) against a reference composition built from swc-parsed parts; (b) real T::export() in every order and every "
                 "prefix per shared file, plus re-export; (c) barrier-released concurrent exports with seeded sleeps at the probe points, event-log "
-                "mutual-exclusion invariant and final-bytes comparison. distinct_nontrivial = distinct (part, file-or-synthetic class signature, "
+                "mutual-exclusion invariant and final-bytes comparison; thorough: part (c) again under Miri (12 processes, seeded preemptive scheduler, "
+                "undefined-behaviour / data-race / deadlock detection). distinct_nontrivial = distinct (part, file-or-synthetic class signature, "
                 "set size) combinations + distinct lock-acquisition orders observed")
     chk.assumptions = ["merge hook = the function export_and_merge calls", "probe points do not change behaviour (they only log / sleep)"]
     shards = min(C.NCPU, 8 if tier == "quick" else 16)
@@ -213,9 +215,83 @@ def c05(pid, tier, seed):
                     chk.violation(key, what, e, tags=cls)
         if lock_orders < 20:
             chk.note_inconclusive(f"only {lock_orders} distinct lock-acquisition orders observed")
+        if tier == "thorough":
+            miri_supplement(chk, seed)
     finally:
         cleanup_scratch()
     return chk.finish(min_evaluations=5000, min_distinct=10)
+
+
+def miri_supplement(chk, seed, procs=12, runs=3):
+    """(c) again under Miri: another scheduler (seeded, preemptive) and an interpreter that reports undefined behaviour,
+    data races and deadlocks in the export path. A supplement: Miri not being usable is recorded, not a verdict."""
+    import subprocess
+    import time
+    tdir = os.path.join(C.WORK, "miri-target")
+    base = ["cargo", "+nightly", "miri", "run", "--offline", "-q", "-p", "fixed", "--"]
+    env0 = C.env_base()
+    env0["CARGO_TARGET_DIR"] = tdir
+    t0 = time.time()
+    procs_l = []
+    outdir = os.path.join(C.WORK, "events", "fixed")
+    for k in range(procs):
+        env = dict(env0)
+        env["MIRIFLAGS"] = f"-Zmiri-disable-isolation -Zmiri-seed={seed * 100 + k} -Zmiri-preemption-rate={[0.01, 0.05, 0.2][k % 3]}"
+        out = os.path.join(outdir, f"C05.miri.{k}.jsonl")
+        if os.path.exists(out):
+            os.remove(out)
+        cmd = base + ["--monitor", "C05", "--only", "concurrent", "--runs", str(runs), "--seed", str(seed * 1000 + k), "--tier", "quick",
+                      "--shard", str(k), "--shards", str(procs), "--scratch", scratch_dir(f"miri-{k}"), "--out", out]
+        if k == 0:
+            # the first invocation builds; the others find the build done
+            p0 = subprocess.run(cmd, cwd=C.HARNESS, env=env, stdout=subprocess.PIPE, stderr=subprocess.STDOUT, text=True, timeout=1800)
+            procs_l.append((k, out, None, p0))
+            if p0.returncode != 0 and "error: Undefined Behavior" not in (p0.stdout or "") and not os.path.exists(out):
+                chk.coverage_extra["miri"] = {"usable": False, "reason": (p0.stdout or "")[-400:]}
+                return
+        else:
+            procs_l.append((k, out, subprocess.Popen(cmd, cwd=C.HARNESS, env=env, stdout=subprocess.PIPE, stderr=subprocess.STDOUT, text=True), None))
+    total_runs, orders, reports = 0, set(), 0
+    for k, out, popen, done in procs_l:
+        if popen is not None:
+            try:
+                stdout, _ = popen.communicate(timeout=1800)
+                rc = popen.returncode
+            except subprocess.TimeoutExpired:
+                popen.kill()
+                chk.coverage_extra.setdefault("miri_notes", []).append(f"process {k} timed out")
+                continue
+        else:
+            stdout, rc = done.stdout, done.returncode
+        if "error: Undefined Behavior" in (stdout or "") or "Data race detected" in (stdout or "") or "deadlock" in (stdout or "").lower():
+            reports += 1
+            chk.violation("C05|miri|" + ("data-race" if "Data race" in stdout else "deadlock" if "deadlock" in stdout.lower() else "undefined-behaviour"),
+                          f"Miri (seed {seed * 100 + k}) reports: {stdout[-600:]}", {"output": stdout[-4000:], "miri_seed": seed * 100 + k}, tags=["miri"])
+            continue
+        events = []
+        if os.path.exists(out):
+            for line in open(out):
+                try:
+                    events.append(json.loads(line))
+                except ValueError:
+                    pass
+        ends = [e for e in events if e.get("ev") == "end"]
+        if rc != 0 or not ends or not ends[-1].get("ok"):
+            chk.coverage_extra.setdefault("miri_notes", []).append(f"process {k}: rc={rc} {(stdout or '')[-200:]}")
+            continue
+        for e in events:
+            if e.get("ev") == "summary" and e.get("part") == "concurrent":
+                total_runs += e["runs"]
+                chk.add_eval(e["runs"])
+                for f, info in e["per_file"].items():
+                    for ex in info["examples"]:
+                        orders.add((f, tuple(ex)))
+            elif e.get("ev") == "fail":
+                cls = sorted(set(e.get("class") or []))
+                chk.violation(f"C05|miri|{e.get('part')}|{e.get('kind')}|{','.join(cls)}",
+                              f"under Miri: {e.get('part')}: {e.get('kind')} ({e.get('origin')}, {e.get('threads')}) {e.get('what', '')}", e, tags=cls + ["miri"])
+    chk.coverage_extra["miri"] = {"usable": True, "processes": procs, "concurrent_export_runs": total_runs, "undefined_behaviour_or_race_reports": reports,
+                                  "distinct_lock_acquisition_orders": len(orders), "wall_s": round(time.time() - t0, 1)}
 
 
 def c06(pid, tier, seed):
